@@ -109,3 +109,15 @@ Example C16_example :
   validate_outbound_internal (Some st_all) co_default {| r_skip_topic := false; r_alias := Some 1 |} (bind_pid p 7) = Ok tt /\
   conforms st_all co_default {| r_skip_topic := false; r_alias := Some 1 |} (bind_pid p 7) = true.
 Proof. exact accepted_example. Qed.
+
+(* ---------- bridge to the wire specification (ValidateProofs/Bridge*.v): what the two validators accept is well-formed on the wire. A PUBLISH / SUBSCRIBE / UNSUBSCRIBE / DISCONNECT value of the Rust packet type whose erased form (packet id 0, DUP 0) passed validate_packet_outbound and which passed validate_packet_outbound_internal with its alias resolution satisfies Codec/ValidC2S.valid (hence encodes to bytes the independent specification decoder reads back as the canonical packet: C02), given the facts the engine and the alias resolver contribute (packet id <= 65535, DUP only on QoS >= 1, alias 1..65535, topic dropped only with an alias) and a length below 4 GiB; the send-time validator ALONE does not give this (it never looks at the topic, the subscription list or the subscription identifier lower bound): witnesses ---------- *)
+From GM Require Import Codec.SpecDecodeC2S Codec.ValidC2S ValidateProofs.SizeP ValidateProofs.BridgeDefs ValidateProofs.BridgePackets ValidateProofs.BridgeWitness.
+Theorem C16_accepted_is_wire_valid : forall (v : version) (st : settings) (co : connect_opts) (r : resolution) (p : packet), user_kind p = true -> typed p = true -> validate_outbound (erase p) = Ok tt -> validate_outbound_internal (Some st) co r p = Ok tt -> small p (res_of p r) -> engine_ok p = true -> res_valid r = true -> (v = V311 -> r_skip_topic r = false) -> valid v r p = true.
+Proof. exact @bridge_user. Qed.
+
+Theorem C16_send_time_check_alone_insufficient : forallb not_wire_valid [(no_resolution, Publish (bw_pub 0 [] 0 false)); (no_resolution, Publish (bw_pub 0 [116; 0] 0 false)); (no_resolution, Publish {| pub_pid := 0; pub_topic := [116]; pub_qos := 0; pub_dup := false; pub_retain := false; pub_payload := None; pub_pfi := None; pub_mei := None; pub_alias := None; pub_response_topic := None; pub_correlation := Some (repeat 1 (N.to_nat 65536)); pub_subids := None; pub_content_type := None; pub_up := None |}); (no_resolution, Publish {| pub_pid := 0; pub_topic := [116]; pub_qos := 0; pub_dup := false; pub_retain := false; pub_payload := None; pub_pfi := None; pub_mei := None; pub_alias := None; pub_response_topic := None; pub_correlation := None; pub_subids := Some [1]; pub_content_type := None; pub_up := None |}); (no_resolution, Subscribe (bw_sub 8 [] None)); (no_resolution, Subscribe (bw_sub 8 [bw_filter [97]] (Some 0))); (no_resolution, Unsubscribe (bw_unsub 9 [])); (no_resolution, Disconnect (bw_disc (Some [0])))] = true.
+Proof. exact @send_time_check_alone_insufficient. Qed.
+
+Theorem C16_bridge_premises_satisfiable : forallb (fun x : resolution * packet => bw_S (snd x) && bw_D (fst x) (snd x) && bw_rest (fst x) (snd x) && valid V5 (fst x) (snd x)) [(no_resolution, Publish (bw_pub 0 [116] 0 false)); (bw_alias, Publish (bw_pub 7 [116] 1 true)); (no_resolution, Subscribe (bw_sub 8 [bw_filter [97; 47; 35]] (Some 5))); (no_resolution, Unsubscribe (bw_unsub 9 [[97; 47; 43]])); (no_resolution, Disconnect (bw_disc (Some [98; 121; 101])))] = true.
+Proof. exact @bridge_premises_satisfiable. Qed.
+
